@@ -459,6 +459,14 @@ func (x *Exec) simple(st *State, fr *frame, ins ssa.Instruction) {
 		a := s.newArr(st, s.fresh("make"), el, true)
 		st.regs[in] = Slice{Arr: a, Off: "0", Len: ln, Cap: cp}
 	case *ssa.BinOp:
+		if in.Op == token.QUO || in.Op == token.REM {
+			// integer division by zero is a run-time panic
+			if tb, ok := in.X.Type().Underlying().(*types.Basic); ok && tb.Info()&types.IsInteger != 0 {
+				if d, ok := x.get(st, in.Y).(Sc); ok {
+					x.assumeOrPanic(st, fr, not(eq(d.T, "0")), "divzero")
+				}
+			}
+		}
 		st.regs[in] = x.binop(st, in)
 	case *ssa.Convert:
 		st.regs[in] = x.convert(st, in)
@@ -584,7 +592,10 @@ func (x *Exec) sliceOp(st *State, fr *frame, in *ssa.Slice) {
 			hi = x.get(st, in.High).(Sc).T
 		}
 		x.assumeOrPanic(st, fr, and("(<= 0 "+lo+")", "(<= "+lo+" "+hi+")", "(<= "+hi+" (strlen "+bv.T+"))"), "slicebounds")
-		st.regs[in] = scInt(fmt.Sprintf("(substr %s %s %s)", bv.T, lo, hi))
+		sub := fmt.Sprintf("(substr %s %s %s)", bv.T, lo, hi)
+		// the only fact known of a substring besides its identity: its length
+		st.assume(eq("(strlen "+sub+")", subTerm(hi, lo)))
+		st.regs[in] = scInt(sub)
 	case Ptr: // pointer to array
 		at := in.X.Type().Underlying().(*types.Pointer).Elem().Underlying().(*types.Array)
 		content := x.loadFrom(st, fr, bv)
@@ -659,6 +670,14 @@ func (x *Exec) binop(st *State, in *ssa.BinOp) Val {
 		}
 		return scInt("(+ " + as.T + " " + bs.T + ")")
 	case token.SUB:
+		if tb != nil && tb.Info()&types.IsUnsigned != 0 {
+			// unsigned subtraction wraps below zero (the realistic machine-arithmetic fault: an
+			// unguarded a-b); additions and multiplications stay mathematical (listed assumption)
+			if w := unsignedWidth(tb); w != "" {
+				d := "(- " + as.T + " " + bs.T + ")"
+				return scInt(ite("(>= "+as.T+" "+bs.T+")", d, "(+ "+d+" "+w+")"))
+			}
+		}
 		return scInt("(- " + as.T + " " + bs.T + ")")
 	case token.MUL:
 		return scInt("(* " + as.T + " " + bs.T + ")")
@@ -697,6 +716,21 @@ func (x *Exec) binop(st *State, in *ssa.BinOp) Val {
 	}
 	subsetf("binary operator %s", in.Op)
 	return nil
+}
+
+// unsignedWidth: 2^bits of an unsigned basic type as a decimal literal ("" when unknown)
+func unsignedWidth(tb *types.Basic) string {
+	switch tb.Kind() {
+	case types.Uint8:
+		return "256"
+	case types.Uint16:
+		return "65536"
+	case types.Uint32:
+		return "4294967296"
+	case types.Uint64, types.Uint, types.Uintptr:
+		return "18446744073709551616"
+	}
+	return ""
 }
 
 func (x *Exec) equal(st *State, a, b Val, t types.Type) string {
